@@ -327,6 +327,24 @@ class ResourceScenario(ScenarioData):
 
         return True
 
+    def countLimits(self, sb_idx: int, delta: int) -> None:
+        """
+        Count one booking (delta=1) or take it back (delta=-1) in the limits of this
+        resource and of all enclosing resource groups.
+
+        Used by team allocations to check the members one after the other against what
+        the members checked before them will consume.
+        """
+        node = self.property
+        while node:
+            limits = node.get("limits", self.scenarioIdx)
+            if limits and hasattr(limits, "inc"):
+                if delta > 0:
+                    limits.inc(sb_idx)
+                else:
+                    limits.dec(sb_idx)
+            node = node.parent
+
     def booked(self, sb_idx: int) -> bool:
         """
         Check if resource is booked at the given time slot.
